@@ -284,9 +284,18 @@ Proof.
   apply G. left. exact Hne.
 Qed.
 
+Lemma int_ws_uni c : uni_ws c = false -> int_ws c = false.
+Proof. intro H. unfold int_ws. rewrite H. reflexivity. Qed.
+
+Lemma digits_strip_int s : forallb is_digit s = true -> strip int_ws s = s.
+Proof.
+  intro H. apply strip_none. eapply forallb_impl; [|exact H]. intros c Hc. cbv beta.
+  rewrite int_ws_uni by apply (digit_facts c Hc). reflexivity.
+Qed.
+
 Lemma py_int_digits z s : str_of_Z z = Ok s -> (0 <= z)%Z -> py_int s = Ok z.
 Proof.
-  intros H Hz. destruct (str_of_Z_nonneg_digits _ _ H Hz) as [D Nn]. unfold py_int. rewrite digits_strip by exact D.
+  intros H Hz. destruct (str_of_Z_nonneg_digits _ _ H Hz) as [D Nn]. unfold py_int. rewrite digits_strip_int by exact D.
   destruct (digits_head_not_dash s D Nn) as (c & r & -> & Hcd & Hc). rewrite Hcd.
   destruct (digit_facts c Hc) as (_ & _ & _ & _ & _ & _ & -> & _). rewrite Hc.
   rewrite strip_underscores_digits by (try exact D; discriminate).
